@@ -33,7 +33,7 @@ MANIFEST = dict(
        "Gaussian/polynomial/linear/ARD/scaled and the weighted-sum log-weights - derivatives of normalised, sub-range, monomial, model, point-set kernels and the "
        "weighted-sum input derivative are exercised by the finite-difference oracle only (toleranced 2e-5); the Gaussian derivative correspondence is "
        "bit-exact on 1x1 blocks only (ARD: all blocks), PointSetKernel with inexact base values only on singleton sets (summation order not modelled); "
-       "PSD of PointSetKernel, MultiTaskKernel, MklKernel and the unconstrained parameter encodings of Gaussian/polynomial are not modelled; ARD, normalised and sub-range kernels "
+       "PSD of PointSetKernel is proved as a quadratic-form statement (pointSet_quadForm_nonneg), not as Matrix.PosSemidef; MultiTaskKernel, MklKernel and the unconstrained parameter encodings of Gaussian/polynomial are not modelled; ARD, normalised and sub-range kernels "
        "cannot be instantiated for sparse inputs in Shark, so the sparse runs cover the other kernels. Four genuine defects found by this check "
        "(normalized-stateless-block, discrete-block-ignores-indices, monomial-degree1-input-derivative, product-uninitialised-parameter-count) "
        "are repaired in /repo by fix: commits ceaec0f1, f2e5cee8, e15da9fc, dba592e9; their inputs stay in corpus/C05 and the model is the repaired code.",
